@@ -247,6 +247,22 @@ pub fn explore(check: &dyn Check, verif_seed: u64, tier: Tier, n: u64, workers: 
                     }
                 }
             }
+            // a call that allocates without bound is the same kind of failure as one that never
+            // returns: report the longest-running published case before the machine runs out of memory
+            if hang.is_none() && rss_bytes() > rss_limit() {
+                let mut oldest: Option<(Instant, u64, J)> = None;
+                for s in slots.iter() {
+                    let s = s.lock().unwrap();
+                    if let (Some(since), Some(case)) = (s.since, s.case.as_ref()) {
+                        if oldest.as_ref().map(|o| since < o.0).unwrap_or(true) {
+                            oldest = Some((since, s.episode, case.clone()));
+                        }
+                    }
+                }
+                if let Some((_, e, c)) = oldest {
+                    hang = Some((e, c));
+                }
+            }
             if hang.is_some() {
                 // a worker is stuck inside one call: it can never be joined, so the caller
                 // reports and exits the process from here
@@ -274,7 +290,7 @@ fn report_hang_and_exit(check: &dyn Check, verif_seed: u64, (episode, case): (u6
         .set("verif_seed", verif_seed)
         .set("episode", episode)
         .set("minimised", false)
-        .set("violation", J::obj().set("class", class.clone()).set("detail", "a call into rtcp-types did not return within the watchdog limit"))
+        .set("violation", J::obj().set("class", class.clone()).set("detail", "a call into rtcp-types did not return within the watchdog limit (or allocated without bound)"))
         .set("case", case);
     let path = write_replay(check.id(), verif_seed, &file);
     if check.hang_is_violation() {
@@ -285,6 +301,18 @@ fn report_hang_and_exit(check: &dyn Check, verif_seed: u64, (episode, case): (u6
         println!("# harness error: a call did not return (case written to {path})");
         std::process::exit(2);
     }
+}
+
+fn rss_bytes() -> u64 {
+    std::fs::read_to_string("/proc/self/statm").ok().and_then(|t| t.split_whitespace().nth(1).and_then(|p| p.parse::<u64>().ok())).map(|p| p * 4096).unwrap_or(0)
+}
+
+fn rss_limit() -> u64 {
+    std::env::var("VERIF_RSS_LIMIT_MB").ok().and_then(|v| v.parse::<u64>().ok()).unwrap_or(6144) << 20
+}
+
+pub fn rss_over_limit() -> bool {
+    rss_bytes() > rss_limit()
 }
 
 pub fn replay_dir() -> String {
